@@ -132,6 +132,19 @@ def cases(tier, seed):
         spec["kind"] = "run"
         spec["extra_atoms"] = False
         out.append(spec)
+    # chain-topology stressors (several molecules under one chain id, hidden chain ends, blank ids), also with --clean
+    nts = 96 if tier == "quick" else 6000
+    rngt = random.Random(seed * 59 + 1)
+    for i in range(nts):
+        ff = common.FFS[i % 6]
+        o = [["--clean"], [f"--ff={ff}"], [f"--ff={ff}", "--noopt"], ["--clean"]][(i // 6) % 4]
+        sch = rngt.choice(["merged_oxt", "merged_oxt", "merged_oxt", "repeated_oxt", "blank_ter", "many", "het_tail",
+                           "mixed_na"])
+        pp = {"scheme": sch}
+        if sch in ("merged_oxt", "repeated_oxt") and i % 2 == 0:
+            pp["nch"] = 3          # the smallest case with a second hidden chain end
+        out.append({"kind": "run", "w": "topostress", "seed": seed * 50101 + i, "ff": ff, "opts": o, "extra_atoms": False,
+                    "p": pp})
     nt = 36 if tier == "quick" else 5000
     for i in range(nt):
         out.append({"kind": "titr", "w": "synth", "seed": seed * 3001 + i, "ff": common.FFS[i % 6],
@@ -190,6 +203,14 @@ def check(res, spec, m, r, opts, titr_by_ord=None):
                 res.violate("model/written-line-mismatch", f"line {ln['line']!r} does not correspond to model atom "
                             f"{a.name} {a.res_seq}", **wit0)
                 break
+    # (2b) the final model is what the residues hold: every atom of every residue must be among the written or the
+    #      reported-unassigned atoms (the atom list the writer walks is a second view of the same model)
+    wid = {id(a) for a in written}
+    lost = [(str(rr), a.name) for rr in r.bio.residues for a in rr.atoms if id(a) not in wid and id(a) not in missed]
+    res.count("model_atoms_traced", sum(len(rr.atoms) for rr in r.bio.residues))
+    if lost:
+        res.violate("model/residue-atoms-neither-written-nor-reported", f"{len(lost)} atoms of the final model are "
+                    f"neither written nor reported unassigned, e.g. {lost[:4]}", **wit0)
     # input atoms per truth ordinal
     idx, nblocks = match.input_index(m["items"])
     inp = {}
